@@ -1,7 +1,11 @@
 (** C14 — property theorems.  This file contains nothing but statements closed by [exact]. *)
 From Coq Require Import ZArith List Bool Arith Reals.
+From Coquelicot Require Import Complex.
 From KV Require Import Base.Outcome C13.ModelOps C13.ModelEffects C13.ModelDelay C13.ModelTree
-     C14.SpecLaws C14.ProofsLaws C14.Signals C14.SpecDelay C14.ProofsDelay.
+     C14.SpecLaws C14.ProofsLaws C14.Signals C14.SpecDelay C14.ProofsDelay
+     C14.OpsC C14.SpecSVF C14.ProofsSVF C14.ProofsResponse C14.ProofsEQ C14.ProofsFreqResp
+     C14.SpecFreeverb C14.ProofsFreeverb C14.SpecCompressor C14.ProofsCompressor.
+From KV Require C13.Run.
 Import ListNotations.
 Open Scope ops_scope.
 Local Open Scope R_scope.
@@ -117,3 +121,179 @@ Theorem echo_train_R :
     (forall n, (n mod D <> 0)%nat \/ n = 0%nat -> echo_ir D g n = 0) /\
     (forall n, (1 <= n)%nat -> echo_ir D g (n + D) = g * echo_ir D g n \/ echo_ir D g n = 0).
 Proof. exact echo_train. Qed.
+
+(** The delay length in frames is the exact floor of delay_time x sample_rate (integer arithmetic on
+    nanoseconds, F35 repaired): D / rate <= delay_time < (D + 1) / rate; at least one frame. *)
+Theorem delay_length_exact_R :
+  forall nanos sr : Z,
+    (0 <= nanos)%Z -> (0 < sr)%Z ->
+    let D := delay_len_Z nanos sr in
+    (0 <= D)%Z /\
+    IZR D / IZR sr <= IZR nanos / 1000000000 < (IZR D + 1) / IZR sr /\
+    ((1 <= D)%Z -> delay_frames (Z.to_nat D) = Z.to_nat D) /\
+    ((D = 0)%Z -> delay_frames (Z.to_nat D) = 1%nat).
+Proof. exact delay_length_exact. Qed.
+
+(** The state-variable core of filter.rs: complex-exponential input X z^n from the matching state gives
+    H(z) X z^n at EVERY frame, H = Q^2/D (low), PQ/D (band), P^2/D (high), (P^2+Q^2)/D (notch) with
+    P = z - 1, Q = g (z + 1), D = P^2 + k P Q + Q^2, blended with the dry signal. *)
+Theorem svf_transfer_C :
+  forall (m : fmode) (g k mix : R) (z : C) (X : frame C) (N : nat),
+    (1 + g * (g + k) <> 0)%R -> svfD g k z <> RtoC 0 ->
+    let step := filter_step m (RtoC (svf_a1 g k)) (RtoC (svf_a2 g k)) (RtoC (svf_a3 g k)) (RtoC k) (RtoC mix) in
+    run_frames step (steady g k z X c1) (map (cexp X z) (seq 0 N)) =
+    (steady g k z X (Cpow z N),
+     map (fun n => cscale X (with_mix (H_svf_poly m g k z) mix * Cpow z n)%C) (seq 0 N)).
+Proof. exact filter_transfer_C. Qed.
+
+(** ... and that rational function is the analog prototype under the bilinear transform s = (z-1)/(g(z+1)). *)
+Theorem svf_is_bilinear_prototype_C :
+  forall (m : fmode) (g k : R) (z : C),
+    g <> 0%R -> (z + c1)%C <> RtoC 0 -> svfD g k z <> RtoC 0 ->
+    H_svf_poly m g k z = H_svf m g k z.
+Proof. exact H_svf_poly_is_bilinear. Qed.
+
+(** On the unit circle the response is the prototype on the j-Omega axis at Omega = tan(theta/2)/g
+    (frequency warping); no pole on the circle for g, k > 0. *)
+Theorem svf_response_on_circle_C :
+  forall (m : fmode) (g k theta : R),
+    (0 < g)%R -> (0 < k)%R -> cos (theta / 2) <> 0%R ->
+    H_svf_poly m g k (cis theta) = H_proto m k (Ci * RtoC (tan (theta / 2) / g))%C.
+Proof. exact svf_response_on_circle. Qed.
+
+(** Filter, code coefficients (tan = Coq's tan), any sample rate, cutoff inside the clamp range, any probe
+    frequency f (not an odd multiple of Nyquist), any amplitude/phase X, any run length: the REAL model's
+    response to the sinusoid Re (X e^(i n theta)) is Re (H X e^(i n theta)), H the prototype at
+    Omega = tan(pi f/fs)/tan(pi fc/fs), k = 2 - 1.9 resonance. *)
+Theorem filter_frequency_response_R :
+  forall (m : fmode) (fc res mix fs f : R) (X : frame C) (N : nat),
+    (0 < fs)%R -> (lit_1e4 <= fc / fs < lit_half)%R -> cos (PI * f / fs) <> 0%R ->
+    let '(a1, a2, a3, k) := filter_coeffs PI lit_1e4 lit_half lit_1p9 tan fc res (1 / fs)%R in
+    let g := prewarp fc fs in
+    let z := cis (omega f fs) in
+    let H := H_proto m k (Ci * RtoC (tan (PI * f / fs) / tan (PI * fc / fs)))%C in
+    snd (run_frames (estep consts_R (EFilter m a1 a2 a3 k mix))
+                    (SSvf (reS (steady g k z X c1)))
+                    (map (fun n => reF (cexp X z n)) (seq 0 N))) =
+    map (fun n => reF (cscale X (with_mix H mix * Cpow z n)%C)) (seq 0 N).
+Proof. exact filter_frequency_response. Qed.
+
+(** Unity pass bands, nulls in the stop bands, and at the requested cutoff (in hertz, for the sample rate in
+    force) gain 1/k for low / band / high and a null for the notch. *)
+Theorem filter_landmarks_C :
+  forall fc res fs : R,
+    (0 < fs)%R -> (lit_1e4 <= fc / fs < lit_half)%R ->
+    let g := prewarp fc fs in let k := filter_k res in
+    (H_svf_poly LowPass g k c1 = c1 /\ H_svf_poly Notch g k c1 = c1 /\
+     H_svf_poly HighPass g k (- c1)%C = c1 /\ H_svf_poly Notch g k (- c1)%C = c1) /\
+    (H_svf_poly HighPass g k c1 = RtoC 0 /\ H_svf_poly BandPass g k c1 = RtoC 0 /\
+     H_svf_poly LowPass g k (- c1)%C = RtoC 0 /\ H_svf_poly BandPass g k (- c1)%C = RtoC 0) /\
+    (let zc := cis (omega fc fs) in
+     Cmod (H_svf_poly LowPass g k zc) = (1 / k)%R /\ Cmod (H_svf_poly BandPass g k zc) = (1 / k)%R /\
+     Cmod (H_svf_poly HighPass g k zc) = (1 / k)%R /\ H_svf_poly Notch g k zc = RtoC 0).
+Proof. exact filter_landmarks. Qed.
+
+(** EQ filter: the model's transfer function m0 + m1 H_band + m2 H_low with the coefficients of eq_filter.rs
+    is the Audio-EQ-Cookbook prototype (bell / low shelf / high shelf) under the bilinear transform. *)
+Theorem eq_is_cookbook_C :
+  forall (kind : eqkind) (g0 r Q : R) (z : C),
+    (0 < g0)%R -> (0 < r)%R -> (0 < Q)%R -> (z + c1)%C <> RtoC 0 ->
+    let A := (r * r)%R in
+    svfD (eq_g kind g0 A) (eq_k kind A Q) z <> RtoC 0 ->
+    H_eq_kind kind g0 A Q z = H_eq kind g0 A Q z.
+Proof. exact eq_is_cookbook. Qed.
+
+(** EQ filter, code coefficients (tan, 10^x = Coq's), any sample rate, any probe frequency: the REAL model's
+    response to a sinusoid is that of the cookbook prototype at Omega = tan(pi f/fs)/tan(pi fc/fs). *)
+Theorem eq_frequency_response_R :
+  forall (kind : eqkind) (fc q gain fs f : R) (X : frame C) (N : nat),
+    (0 < fs)%R -> (lit_1e4 <= fc / fs < lit_half)%R -> cos (PI * f / fs) <> 0%R ->
+    let A := eq_A gain in let Q := Rmax q lit_minq in
+    let '((a1, a2, a3), (m0, m1, m2)) :=
+      eq_coeffs PI lit_1e4 lit_half lit_minq tan (Rpower 10) kind fc q gain (1 / fs)%R in
+    let g := eq_g kind (prewarp fc fs) A in let k := eq_k kind A Q in
+    let z := cis (omega f fs) in
+    let H := H_eq_proto kind A Q (Ci * RtoC (tan (PI * f / fs) / tan (PI * fc / fs)))%C in
+    snd (run_frames (estep consts_R (EEq a1 a2 a3 m0 m1 m2))
+                    (SSvf (reS (steady g k z X c1)))
+                    (map (fun n => reF (cexp X z n)) (seq 0 N))) =
+    map (fun n => reF (cscale X (H * Cpow z n)%C)) (seq 0 N).
+Proof. exact eq_frequency_response. Qed.
+
+(** The requested gain, exactly 10^(dB/20): at the bell centre (in hertz, for the rate in force), at DC for
+    the low shelf, at Nyquist for the high shelf; unity at the other ends. *)
+Theorem eq_landmarks_C :
+  forall fc q gain fs : R,
+    (0 < fs)%R -> (lit_1e4 <= fc / fs < lit_half)%R ->
+    let A := eq_A gain in let Q := Rmax q lit_minq in let g0 := prewarp fc fs in
+    (H_eq_kind Bell g0 A Q (cis (omega fc fs)) = RtoC (db_to_gain gain) /\
+     H_eq_kind Bell g0 A Q c1 = c1 /\ H_eq_kind Bell g0 A Q (- c1)%C = c1) /\
+    (H_eq_kind LowShelf g0 A Q c1 = RtoC (db_to_gain gain) /\ H_eq_kind LowShelf g0 A Q (- c1)%C = c1) /\
+    (H_eq_kind HighShelf g0 A Q (- c1)%C = RtoC (db_to_gain gain) /\ H_eq_kind HighShelf g0 A Q c1 = c1).
+Proof. exact eq_landmarks. Qed.
+
+(** Reverb = Freeverb: the model (arrays with a running index) equals the reference network written with
+    delay-line histories (8 parallel lowpass-feedback combs + 4 series all-passes per channel, input gain
+    0.015, width mixing), for ANY sample operations (bit for bit in binary32), every input and run length;
+    only condition: every delay line holds at least one sample. *)
+Theorem reverb_is_freeverb_any :
+  forall (F : Type) (OPS : Ops F) (K : consts F) (csz asz : list (nat * nat)) (fb damp width mix : F)
+         (xs : list (frame F)),
+    sizes_ok csz -> sizes_ok asz ->
+    snd (run_frames (estep K (EReverb csz asz fb damp width mix)) (init (EReverb csz asz fb damp width mix)) xs) =
+    freeverb K csz asz fb damp width mix xs.
+Proof. exact @reverb_is_freeverb. Qed.
+
+(** The delay lengths the code computes in binary64 are, at every standard device rate, exactly
+    floor(tuning * rate / 44100) of the reference tunings 1116 ... 1617 / 556 ... 225, right channel + 23. *)
+Theorem freeverb_tunings :
+  (forall sr, In sr standard_rates ->
+     C13.Run.sizes sr C13.Run.comb_tunings = fv_sizes sr fv_comb_tunings /\
+     C13.Run.sizes sr C13.Run.allpass_tunings = fv_sizes sr fv_allpass_tunings) /\
+  (fv_sizes 44100 fv_comb_tunings =
+   [(1116, 1139); (1188, 1211); (1277, 1300); (1356, 1379); (1422, 1445); (1491, 1514); (1557, 1580); (1617, 1640)]%nat /\
+   fv_sizes 44100 fv_allpass_tunings = [(556, 579); (441, 464); (341, 364); (225, 248)]%nat) /\
+  (forall sr l, sizes_ok (fv_sizes sr l)).
+Proof. exact (conj tunings_scaled_exactly (conj tunings_at_44100 fv_sizes_ok)). Qed.
+
+(** Compressor, below the threshold from rest: the signal is only multiplied by the make-up gain (then
+    blended); the follower stays at rest.  Any log10; 10^0 = 1 is the only fact about powf used. *)
+Theorem compressor_below_threshold_R :
+  forall (lg pw : R -> R) (thr ratio att rel mk_db mix : R) (xs : list (frame R)),
+    pw 0 = 1 -> Forall (below lg thr) xs ->
+    run_frames (estep consts_R (ECompressor lg pw thr ratio att rel mk_db mix)) (SComp (0, 0)) xs =
+    (SComp (0, 0), map (fun x => blend (fst x * pw (mk_db / 20), snd x * pw (mk_db / 20)) x mix) xs).
+Proof. exact compressor_below_threshold. Qed.
+
+(** Constant levels Ll, Lr dB: the follower is o + s^n (e0 - o) at EVERY frame (o = overshoot above the
+    threshold, s = attack coefficient when rising / release when falling), the gain applied at frame n is
+    10^(follower(n+1) (1/ratio - 1) / 20). *)
+Theorem compressor_constant_level_R :
+  forall (lg pw : R -> R) (thr ratio att rel mk_db mix Ll Lr el0 er0 : R),
+    0 <= att -> 0 <= rel ->
+    forall x : nat -> frame R, (forall n, at_levels lg Ll Lr (x n)) ->
+    forall N : nat,
+      run_frames (estep consts_R (ECompressor lg pw thr ratio att rel mk_db mix)) (SComp (el0, er0)) (map x (seq 0 N)) =
+      (SComp (follower (overshoot thr Ll) (follower_speed att rel (overshoot thr Ll) el0) el0 N,
+              follower (overshoot thr Lr) (follower_speed att rel (overshoot thr Lr) er0) er0 N),
+       map (comp_out lg pw thr ratio att rel mk_db mix Ll Lr el0 er0 x) (seq 0 N)).
+Proof. exact compressor_constant_level. Qed.
+
+(** ... which converges to the static curve (level - threshold) (1/ratio - 1) dB, output level
+    threshold + (level - threshold)/ratio; nothing below the threshold. *)
+Theorem compressor_static_curve_R :
+  (forall thr ratio L s e0, 0 <= s < 1 ->
+     forall eps, 0 < eps -> exists N, forall n, (N <= n)%nat ->
+       Rabs (follower (overshoot thr L) s e0 n * (1 / ratio - 1) - static_gain_db thr ratio L) < eps) /\
+  (forall thr ratio L, thr <= L ->
+     static_gain_db thr ratio L = - ((L - thr) * (1 - 1 / ratio)) /\
+     L + static_gain_db thr ratio L = thr + (L - thr) / ratio) /\
+  (forall thr ratio L, L <= thr -> static_gain_db thr ratio L = 0).
+Proof. exact (conj gain_converges (conj static_gain_above static_gain_below)). Qed.
+
+(** Attack / release are time constants: the coefficient of compressor.rs is exp(-dt/tau), in (0, 1), and
+    after n frames (n dt seconds) the distance to the target has shrunk by exactly e^(-n dt / tau). *)
+Theorem compressor_time_constants_R :
+  (forall tau dt, 0 < tau -> 0 < dt -> comp_speed exp tau dt = smoothing tau dt /\ 0 < smoothing tau dt < 1) /\
+  (forall o e0 tau dt n, follower o (smoothing tau dt) e0 n - o = exp (- (INR n * dt) / tau) * (e0 - o)).
+Proof. exact (conj comp_speed_R follower_time_constant). Qed.
